@@ -1,5 +1,6 @@
 (** Property C08 — redeemers are attached to the item they were written for. *)
-From Tx3 Require Import Base Tir Reduce PlutusData Compile Compile_proofs.
+From stdpp Require Import sorting.
+From Tx3 Require Import Base Tir Reduce PlutusData Compile Compile_proofs Compile_sorted.
 
 (** the list the spend index is taken from is a permutation of the body inputs ... *)
 Theorem C08_sorted_inputs_perm : forall l, sort_refs l ≡ₚ l.
@@ -18,6 +19,17 @@ Theorem C08_order_strict_total :
   (forall a b, bytes_ltb a b = false -> bytes_ltb b a = false -> a = b).
 Proof. exact (conj bytes_ltb_irrefl (conj bytes_ltb_asym (conj bytes_ltb_trans bytes_ltb_total))). Qed.
 
+(** that list is in the ledger's order: ascending by (transaction id, output index) *)
+Theorem C08_sorted_inputs_sorted : forall l, StronglySorted ref_le (sort_refs l).
+Proof. exact sort_refs_sorted. Qed.
+(** and in such a list the position of an input is its rank: the number of inputs that precede
+    it in the ledger's order - the index the ledger will use for it *)
+Theorem C08_index_is_rank : forall x l k,
+  StronglySorted ref_le l -> NoDup l -> position (fun y => bool_decide (y = x)) l = Some k -> k = rank x l.
+Proof. exact position_is_rank. Qed.
+
+Print Assumptions C08_sorted_inputs_sorted.
+Print Assumptions C08_index_is_rank.
 Print Assumptions C08_sorted_inputs_perm.
 Print Assumptions C08_index_points_at_item.
 Print Assumptions C08_order_strict_total.
